@@ -2,7 +2,7 @@
    Only the property theorems, each closed by [exact] of a lemma of Proofs.v and followed by
    Print Assumptions.  They cover the pure cores of the error path (calcline, escape decoding,
    capture nesting); the LPegLabel matcher and the Lua VM are tested, not modelled. *)
-From C06 Require Import Model Proofs.
+From C06 Require Import Model Model2 Proofs Proofs2.
 Local Open Scope Z_scope.
 
 (* lpegrex.calcline, for EVERY text and EVERY position >= 0 (q = the number of characters whose
@@ -58,3 +58,65 @@ Theorem C06_nesting_threshold : forall f ctx n, 0 <= n ->
   (too_deep (depth f ctx n) = true <-> threshold f ctx <= n).
 Proof. exact nesting_threshold. Qed.
 Print Assumptions C06_nesting_threshold.
+
+(* C stack: the worst-case stack use of the capture recursion (MAXRECLEVEL + 2 frames of
+   pushcapture, each holding PUSHCAPTURE_BUFFERS luaL_Buffer objects of LUAL_BUFFERSIZE bytes, plus
+   FRAME_SLACK) together with LUAI_MAXCCALLS nested C calls stays below the 8 MiB main-thread
+   stack (budget and slack are stated assumptions; the other numbers are scraped from the
+   Makefile, luaconf.h, llimits.h, lplcap.c) *)
+Theorem C06_cstack_budget : capture_stack_worst + ccall_stack_worst < CSTACK_BUDGET /\
+  1 <= PUSHCAPTURE_BUFFERS /\ 0 < LUAL_BUFFERSIZE /\ 0 < LUAI_MAXCCALLS.
+Proof. exact cstack_budget. Qed.
+Print Assumptions C06_cstack_budget.
+
+(* all nesting families: the capture nesting limit is reached exactly from the family's threshold
+   on (families whose captures do not nest never reach it) *)
+Theorem C06_cap_threshold : forall f n, 0 <= n ->
+  match cap_threshold f with
+  | Some t => (MAXRECLEVEL + 2 <= cap_depth f n <-> t <= n)
+  | None => cap_depth f n = cap_base f
+  end.
+Proof. exact cap_threshold_spec. Qed.
+Print Assumptions C06_cap_threshold.
+
+(* the LPeg backtrack stack (limit lpeg.setmaxstack) overflows exactly from bt_threshold on; the
+   per-level entries are calibrated constants of the model (validated every run), the limit is scraped *)
+Theorem C06_backtrack_threshold : forall f n, 0 <= n -> (LPEG_MAXSTACK < bt_usage f n <-> bt_threshold f <= n).
+Proof. exact bt_threshold_spec. Qed.
+Print Assumptions C06_backtrack_threshold.
+
+(* what the matcher does on n nested levels of a family, for every n *)
+Theorem C06_family_outcome : forall f n, 0 <= n ->
+  family_outcome f n =
+    if bt_threshold f <=? n then BacktrackOverflow
+    else match cap_threshold f with
+         | Some t => if t <=? n then TooDeep else Parsed
+         | None => Parsed
+         end.
+Proof. exact family_outcome_spec. Qed.
+Print Assumptions C06_family_outcome.
+
+(* termination in reasonable time: nested call statements f(function() ... end) are parsed with work
+   that at least doubles per level in the grammar as it is (`Assign / call` both parse the complete
+   call prefix) - the linear expectation is refuted, the exponential lower bound is proved *)
+Theorem C06_parse_work_linear_refuted : ~ parse_work_linear.
+Proof. exact parse_work_linear_refuted. Qed.
+Print Assumptions C06_parse_work_linear_refuted.
+
+Theorem C06_parse_work_partial : forall n, 2 ^ Z.of_nat n <= parse_work n.
+Proof. exact parse_work_doubles. Qed.
+Print Assumptions C06_parse_work_partial.
+
+(* the diagnostic errorer.get_pretty_source_pos_errmsg builds (no colours): name ':' line ':' col
+   ': syntax error: ' message, the source line, the caret line.  line and col are printed as
+   non-empty decimal digit strings whose value is the number; the caret line is white space then
+   '^' and, for a column inside the shown line, exactly col characters long *)
+Theorem C06_diag_shape : forall name line col msg srcline, 0 <= line -> 0 <= col ->
+  exists dl dc,
+    format_diag name line col msg srcline =
+      name ++ 58 :: dl ++ 58 :: dc ++ SEP_ERROR ++ msg ++ 10 :: srcline ++ 10 :: caret_line srcline col ++ [10] /\
+    dl <> [] /\ all_digits dl /\ dec_val dl = line /\ dc <> [] /\ all_digits dc /\ dec_val dc = col /\
+    (exists ws, caret_line srcline col = ws ++ [94] /\ (forall c, In c ws -> c = 9 \/ c = 32)) /\
+    (1 <= col <= len srcline + 1 -> len (caret_line srcline col) = col).
+Proof. exact diag_shape. Qed.
+Print Assumptions C06_diag_shape.
